@@ -293,7 +293,7 @@ func c16Run(c *ev.Ctx) {
 
 func init() {
 	ev.Register(&ev.Driver{Prop: "C16", Level: "exploration",
-		Rule: "grid enumeration of dependent-block frames built by the reference encoder: every block-size sequence of length 1..3 (thorough 4) over {1,5,13,100,65535,65536} plus long plans crossing the 128 KiB dictionary trim threshold (thorough: 4 MiB blocks) x 10 match variants (match at the first byte of each later block with offset in {1, prev-1, prev, prev+1, sum of previous two, 65534, 65535, max available}, lengths {4,19,300}; a second match in the middle; matches whose source straddles the block boundary) x every raw/compressed assignment x {block checksum, content checksum} x reader configurations (concurrency {1,2,4} x WriteTo / Read cycles incl. 1, 7, size-1, size, 64K, 256K). Every frame is validated by the reference parser before use. Non-trivial = every (frame, reader configuration).",
+		Rule:        "grid enumeration of dependent-block frames built by the reference encoder: every block-size sequence of length 1..3 (thorough 4) over {1,5,13,100,65535,65536} plus long plans crossing the 128 KiB dictionary trim threshold (thorough: 4 MiB blocks) x 10 match variants (match at the first byte of each later block with offset in {1, prev-1, prev, prev+1, sum of previous two, 65534, 65535, max available}, lengths {4,19,300}; a second match in the middle; matches whose source straddles the block boundary) x every raw/compressed assignment x {block checksum, content checksum} x reader configurations (concurrency {1,2,4} x WriteTo / Read cycles incl. 1, 7, size-1, size, 64K, 256K). Every frame is validated by the reference parser before use. Non-trivial = every (frame, reader configuration).",
 		Assumptions: []string{"ref.EncodeFrame/ref.Parse are trusted; they must agree with each other on every frame before it is used"},
 		Run:         c16Run,
 		Replay: func(c *ev.Ctx) {
